@@ -122,6 +122,10 @@ func locksIn(fn *ssa.Function, entry lockset) map[ssa.Instruction]lockset {
 					for m, mode := range acquiredByCallee(call) {
 						cur[m] = mode
 					}
+					// ... and its counterpart that only lets a lock go (c.unpinChan(): c.m.RUnlock())
+					for _, m := range releasedByCallee(call) {
+						delete(cur, m)
+					}
 				}
 			}
 		}
@@ -745,4 +749,44 @@ func returnedLiteralLocks(c *Ctx, fn *ssa.Function, depth int) lockset {
 		return lockset{}
 	}
 	return res
+}
+
+// releasedByCallee: call's static in-package callee is a straight-line function that unlocks mutexes it did not lock itself
+// (func (c *ContextCond) unpinChan() { c.m.RUnlock() }): their paths in the caller's terms.
+func releasedByCallee(call *ssa.Call) []string {
+	cal := staticCallee(&call.Call)
+	if cal == nil || cal.Blocks == nil || len(cal.Blocks) != 1 || call.Parent() == nil || cal.Parent() != nil || rootFn(origin(cal)).Pkg != rootFn(call.Parent()).Pkg {
+		return nil
+	}
+	o := origin(cal)
+	locked := map[string]bool{}
+	var out []string
+	for _, in := range o.Blocks[0].Instrs {
+		c2, ok := in.(*ssa.Call)
+		if !ok {
+			continue
+		}
+		m, op := lockEvent(&c2.Call)
+		if m == "" {
+			continue
+		}
+		switch op {
+		case "Lock", "RLock":
+			locked[m] = true
+		case "Unlock", "RUnlock":
+			if locked[m] {
+				delete(locked, m)
+				continue
+			}
+			for i, a := range call.Call.Args {
+				if i < len(o.Params) {
+					pn := pname(o.Params[i])
+					if strings.HasPrefix(m, pn+".") {
+						out = append(out, path(a)+m[len(pn):])
+					}
+				}
+			}
+		}
+	}
+	return out
 }
